@@ -55,6 +55,12 @@ CHECKS = {
              "with scales spanning 30 orders of magnitude.", "5/C10",
          "Trusted base: TLC, FloatOrd, observer products. No bounded design model beyond the trace spec: the property is a post-condition of one construction step.",
          "trace validation (TLC) of recorded equilibration states against Equil.tla"),
+ "C19": ("fault_enumeration", "JsonIO.tla: Save -> one fault -> Load. Every truncation offset, single-byte deletion and 23 semantic single-site corruptions of saved files are classified by the "
+             "specification (Canonical predicate of Csc.tla and the constructor's dimension predicates evaluated by TLC on independently parsed fields) and the real load outcome must be Err / Ok "
+             "accordingly and never a panic; undamaged round trips must reproduce data (bit-exact with equilibration off, 16 ulps otherwise), cones, settings incl. infinite time_limit, overrides, "
+             "and the solve verdict; histories that edit public settings before saving are included.",
+         "5/C19", "Trusted base: TLC, independent JSON field parser in the harness (serde_json::Value), FloatOrd. Quick samples byte offsets; thorough enumerates all.",
+         "fault enumeration validated against JsonIO.tla by TLC (trace validation)"),
 }
 NOT_APPLICABLE = [
  {"property_id": "C13", "reason": "Nesterov-Todd identities are real-analytic identities (square roots, matrix square roots) with no state, history or index structure for a TLA+ model to carry; TLC has no real arithmetic. The structural clause (KKT block = operator used for slack recovery) is decided under C11."},
